@@ -49,7 +49,12 @@ func honestOverRealHTTP(x *mon.Ctx) {
 				ctl := mon.RunVerify(c) // the scripted getter
 				pcs0.Serve(c.Resp)
 				for _, mode := range []string{"content-length", "chunked", "gzip", "pieces", "pieces-chunked"} {
-					for _, getter := range []string{"default", "simple"} {
+					// (a retrying getter whose retry budget is zero, negative or a nanosecond still makes its first attempt: the budget
+					// bounds the retrying, not the attempt — honest documents served at once are accepted)
+					for _, getter := range []string{"default", "simple", "retry-budget-0", "retry-budget-negative", "retry-budget-1ns"} {
+						if getter != "default" && getter != "simple" && mode != "content-length" && mode != "pieces" {
+							continue
+						}
 						if abort {
 							break
 						}
@@ -58,8 +63,15 @@ func honestOverRealHTTP(x *mon.Ctx) {
 						served++
 						o, _ := mon.Options(c)
 						o.Getter = nil
-						if getter == "simple" {
+						switch getter {
+						case "simple":
 							o.Getter = &trust.SimpleHTTPSGetter{}
+						case "retry-budget-0":
+							o.Getter = &trust.RetryHTTPSGetter{Timeout: 0, MaxRetryDelay: time.Second, Getter: &trust.SimpleHTTPSGetter{}}
+						case "retry-budget-negative":
+							o.Getter = &trust.RetryHTTPSGetter{Timeout: -time.Minute, MaxRetryDelay: 0, Getter: &trust.SimpleHTTPSGetter{}}
+						case "retry-budget-1ns":
+							o.Getter = &trust.RetryHTTPSGetter{Timeout: time.Nanosecond, MaxRetryDelay: 10 * time.Millisecond, Getter: &trust.SimpleHTTPSGetter{}}
 						}
 						m := mon.MessageFor("built", c.Quote)
 						var err error
